@@ -365,3 +365,76 @@ def typed_int_array(A, dtype):
     if not np.array_equal(B.astype(float), A):
         return None
     return B
+
+
+# ----------------------------------------------------------------------------- results modified by the caller / input dtypes
+
+def scribble(x, _seen=None):
+    """The caller does what it likes with ITS result: overwrite every writeable array reachable from x (lists, tuples, dicts)
+    in place with values it never held (floats: -|v| - 7.25e77, integers: bitwise complement, booleans: negation), then empty
+    every list and dict of the tree.  Returns the number of arrays overwritten plus containers emptied.  Afterwards an
+    independent computation must not be able to tell that x ever existed (memoised / module-level results would)."""
+    _seen = set() if _seen is None else _seen
+    if id(x) in _seen:
+        return 0
+    _seen.add(id(x))
+    cnt = 0
+    if isinstance(x, np.ndarray):
+        if x.size and x.flags.writeable:
+            if x.dtype.kind in 'fc':
+                with np.errstate(all='ignore'):
+                    x[...] = -np.abs(np.nan_to_num(x.real if x.dtype.kind == 'c' else x, nan=1.0, posinf=1.0, neginf=1.0)) - 7.25e77
+                cnt = 1
+            elif x.dtype.kind in 'iu':
+                x[...] = ~x
+                cnt = 1
+            elif x.dtype.kind == 'b':
+                x[...] = ~x
+                cnt = 1
+        return cnt
+    if isinstance(x, (list, tuple)):
+        for e in x:
+            cnt += scribble(e, _seen)
+        if isinstance(x, list) and x:
+            x.clear()
+            cnt += 1
+        return cnt
+    if isinstance(x, dict):
+        for e in x.values():
+            cnt += scribble(e, _seen)
+        if x:
+            x.clear()
+            cnt += 1
+        return cnt
+    return 0
+
+
+def call_scribble_call(make, run, same_objects=True, args_of=None):
+    """Generic history clause "call, scribble over the whole result tree, call again".  make() builds a FRESH, equal argument
+    bundle on every call, run(bundle) performs the call and returns the result tree.  Sequence: r0 = run(make()) (snapshot
+    kept: the reference obtained BEFORE anything was modified); r1 = run(b1); scribble(r1); r2 = run(make()) with equal fresh
+    arguments; and, if same_objects and nothing reachable from r1 shared memory with the arguments b1 (documented pass-through
+    results excepted by the caller), r3 = run(b1) with the very same argument objects (a cache keyed on object identity).
+    Returns None if r0 was not changed by the scribbling of r1 and r2 (r3) are bit-identical to the reference, else a message."""
+    r0 = run(make())
+    s0 = snapshot(r0)
+    b1 = make()
+    args_of = args_of or (lambda b: b)          # the part of the bundle that must be untouched for the same-objects call
+    sb = snapshot(args_of(b1)) if same_objects else None
+    r1 = run(b1)
+    if snapshot(r1) != s0:
+        return 'second call with equal fresh arguments differs from the first (before any modification)'
+    n = scribble(r1)
+    if snapshot(r0) != s0:
+        return 'overwriting the result of one call changed the result of an EARLIER call (the two results share objects)'
+    r2 = run(make())
+    if snapshot(r2) != s0:
+        return (f'call, overwrite the returned arrays / empty the returned lists ({n} objects), call again with equal fresh '
+                f'arguments: the repeated call does not return the original result (it hands out the modified object of '
+                f'the earlier call or depends on it)')
+    if same_objects and snapshot(args_of(b1)) == sb:
+        r3 = run(b1)
+        if snapshot(r3) != s0:
+            return (f'call, overwrite the result, call again with the SAME argument objects: the repeated call does not '
+                    f'return the original result')
+    return None
